@@ -166,6 +166,9 @@ where
 
     fn next(&mut self) -> Option<Self::Item> {
         let u = self.stack.pop()?;
+
+        assert!(u < self.visited.len(), "u = {u} isn't in the digraph");
+
         let visited_ptr = self.visited.as_mut_ptr();
 
         if unsafe { *visited_ptr.add(u) } {
@@ -177,6 +180,11 @@ where
         }
 
         for v in self.digraph.out_neighbors(u) {
+            assert!(
+                v < self.visited.len(),
+                "v = {v} isn't in the digraph"
+            );
+
             if !unsafe { *visited_ptr.add(v) } {
                 self.stack.push(v);
             }
